@@ -153,7 +153,7 @@ def run(ctx):
         # no emit of Pressed before the loop
         early = [e for e in fx.effects if e.pos < lp[0] and e.kind == "EMIT" and e.aux == "Pressed"]
         ck.ob("C04-R1", ANM, "nothing-pressed-before-the-press-loop", not early)
-    ck.floor("C04-R1", "add_new_mapping-return-paths", n, 6)
+    ck.floor("C04-R1", "add_new_mapping-return-paths", n, 2)
     # ---------------- R2 the press loop: outputs in listed order; each one is pressed there and then, or is found in a
     # held-key list AT THAT MOMENT (the lists as they are after the releases above, not a copy taken earlier)
     if press_loop is not None:
@@ -169,7 +169,7 @@ def run(ctx):
             ck.ob("C04-R2", ANM, "each-listed-output-is-pressed-or-is-in-a-held-key-list-at-that-moment", len(pressed) == 1 or held, site=p.events[0].span,
                   detail=None if (pressed or held) else "an output is skipped on guards %s: none of them is a live membership test on pass_through_keys/mapped_output_keys" %
                   [(show(a)[:50], v) for a, v in fx.all_guards()][1:4])
-        ck.floor("C04-R2", "press-loop-branches", nb, 5)
+        ck.floor("C04-R2", "press-loop-branches", nb, 2)
     # ---------------- R1 newly_press
     np_ = ctx.body(NP)
     k = T("param", 2, np_.dbg.get(2, ""))
